@@ -314,6 +314,8 @@ T __CPROVER_uninterpreted_int2_5_5(T, T, T, T, T, T, T, T, T, T, T);
 /* ---- ghost prefix sums for the accumulation loops of the forms: BS_SUM(k) is the sum of the first k terms */
 struct bs_sum_t { T s[BS_CAP + 1]; } BS_SUMS;
 #define BS_SUM(k) (BS_SUMS.s[k])
+/* the solution vector of the abstract linear solver of interpolate (contracts/interp.ctr): arbitrary but fixed */
+struct bs_solx_t { T d[8 * BS_CAP]; } BS_SOLX;
 
 /* ---- splines --------------------------------------------------------------- */
 static const T BS_ZERO = 0;
